@@ -31,7 +31,7 @@ ASSUMPTIONS = [
 ]
 COMPONENTS = {"real": ["util.set_owner_process/chown", "Worker.init_process", "Arbiter.spawn_worker (both sides)/reload/reexec",
                        "WorkerTmp (chown of the heartbeat file)", "sock.UnixSocket.bind (chown of the socket file)", "Config uid/gid resolution"],
-              "stub": ["kernel credentials / file ownership", "worker run loop after load_wsgi"]}
+              "stub": ["kernel credentials / file ownership", "worker run loop after load_wsgi (2/3 of the cases; in 1/3 the real sync / gthread / gevent / eventlet worker serves clients and the identity is sampled at every application call)"]}
 
 USERS = [None, 33, "www-data", "daemon", 1, 65534, "nobody", 1000, 54321]   # 54321: no passwd entry
 GROUPS = [None, 33, "www-data", "daemon", 1, 65534, "nogroup", 2000, 54321]
@@ -55,7 +55,8 @@ def make_case(index, rng, tier):
     fault = None
     if rng.randrange(4) == 0:
         fault = {"op": rng.choice(["setgid", "setuid", "initgroups", "chown"]), "nth": rng.randrange(1, 5)}
-    return {"user": user, "group": group, "initgroups": rng.randrange(2) == 0, "unix": rng.randrange(2) == 0,
+    real = rng.choice([None, None, "sync", "gthread", "gevent", "eventlet"])
+    return {"user": user, "group": group, "initgroups": rng.randrange(2) == 0, "unix": rng.randrange(2) == 0, "real": real,
             "via_env": rng.randrange(4) == 0 and not any(e["do"] == "hup_identity" for e in evs),
             "workers": rng.randrange(1, 3), "events": evs, "fault": fault,
             "buggify": {"pyticks": rng.randrange(3) == 0, "fork_child_first": rng.randrange(2) == 0, "random_spawn_delay": rng.randrange(2) == 0}}
@@ -103,12 +104,16 @@ def run(case, choices):
         return None
     sim.sys_fail = sys_fail
 
+    want_at_load = {}       # the identity a worker process must have is the one configured when it was created (an older generation keeps serving
+                            # under the old identity while a reload that changes the identity is in progress)
+
     def on_load(p):
         a = None
         gen = "initial" if sim.now < case["events"][0]["t"] else "later"
         wk_cfg = None
         for mp_ in list(w.masters.values()):
             pass
+        want_at_load[p.pid] = state_want(p)
         loads.append({"pid": p.pid, "name": p.name, "ppid": p.ppid, "t": sim.now, "uids": (p.ruid, p.euid, p.suid), "want": state_want(p),
                       "gids": (p.rgid, p.egid, p.sgid), "groups": sorted(p.groups), "gen": gen})
     def state_want(p):
@@ -117,6 +122,30 @@ def run(case, choices):
         u, g = w.intended.get(p.ppid, (ident["user"], ident["group"]))
         return (NAME2UID.get(u, u) if u is not None else 0, NAME2GID.get(g, g) if g is not None else 0)
     w.on_app_load = on_load
+    calls_seen = []
+    eperm = []
+    clients = []
+    if case.get("real"):
+        # the real worker of one of the four classes boots AND serves: the identity is sampled at every application call as well, and the
+        # worker must keep working (heartbeat) with what it owns after dropping privileges
+        w.use_real_workers(case["real"])
+        if case["unix"]:
+            w.addr = "/run/g.sock"
+        sim.probe("real_worker_class:" + case["real"])
+        tc = 0.3
+        while tc < max(e["t"] for e in case["events"]) + 3.0:
+            clients.append(w.add_client("c%d" % len(clients), [["wait", round(tc, 2)], ["connect"],
+                                                              ["send", "GET /a HTTP/1.1\r\nHost: h\r\nConnection: close\r\n\r\n"], ["recv", 10.0]]))
+            tc += 0.45
+
+        def call_observer(s, actor, kind, detail):
+            if kind == "app-begin":
+                p = current_task().proc
+                calls_seen.append({"pid": p.pid, "ppid": p.ppid, "t": s.now, "uids": (p.ruid, p.euid, p.suid), "gids": (p.rgid, p.egid, p.sgid),
+                                   "groups": sorted(p.groups), "want": want_at_load.get(p.pid, state_want(p))})
+            elif kind == "utime-eperm":
+                eperm.append((s.now, actor, detail))
+        sim.observers.append(call_observer)
     m = w.start_master()
     masters = [m]
 
@@ -174,6 +203,25 @@ def run(case, choices):
                 if l["groups"] != exp:
                     res.violate("C20:groups:%s" % spell, "worker pid %d: supplementary groups %r, expected %r for user %r; %s"
                                 % (l["pid"], l["groups"], exp, sim.passwd[want_uid][0], ctx()))
+        for c_ in calls_seen:
+            want_uid, want_gid = c_["want"]
+            if set(c_["uids"]) != {want_uid} or set(c_["gids"]) != {want_gid}:
+                res.violate("C20:app-call-identity:%s" % case["real"],
+                            "%s worker pid %d ran an application call at t=%.2f with uids %r gids %r, configured %r/%r; %s"
+                            % (case["real"], c_["pid"], c_["t"], c_["uids"], c_["gids"], want_uid, want_gid, ctx()))
+                break
+        if eperm:
+            res.violate("C20:heartbeat-eperm:%s" % case["real"],
+                        "a %s worker could not update its heartbeat file after dropping privileges (EPERM at t=%.2f, file owner/euid %r); %s"
+                        % (case["real"], eperm[0][0], eperm[0][2], ctx()))
+        if case.get("real"):
+            res.probes["app_calls_sampled"] += len(calls_seen)
+            if not fault and loads and not calls_seen and clients and not changed and not any(e["do"] == "usr2" for e in case["events"]):
+                answered = sum(1 for c in clients if c.responses and c.responses[0].get("status") == 200)
+                res.violate("C20:real-worker-never-served:%s" % case["real"],
+                            "workers booted with the configured identity but none of %d clients was served (%d answered): the worker does not "
+                            "keep working after dropping privileges; logs=%r; %s"
+                            % (len(clients), answered, [l for l in w.logs if l[0] in ("ERROR", "CRITICAL")][-2:], ctx()))
         if not fault and not loads and not (case["initgroups"] and case["user"] is None and case["group"] is not None):
             want_uid, want_gid = wanted()
             # floor: without any injected failure the configured identity must be reachable and workers must boot
